@@ -362,3 +362,4 @@ def check(ctx, rep):
     metarules.options_verbatim(ctx, rep, "C09.OPT")
     from .c17 import v_rule
     v_rule(ctx, rep, "C09.UNKNOWN")       # unknown constructor keywords raise TypeError (every one of them, before anything is set)
+    metarules.parent_kwargs_init_only(ctx, rep, "C09.PAR")
